@@ -52,6 +52,7 @@ func VerifResetWire() {
 	VerifServed, VerifEncoded = nil, nil
 	VerifReplyMultiStatus, VerifReply = nil, nil
 	VerifRequestBody, VerifRequestBodyErr = nil, false
+	VerifRawDecodeBad = nil
 }
 
 func verifStubNewXMLRequest(c *Client, method string, path string, v interface{}) (*http.Request, error) {
@@ -154,9 +155,17 @@ func verifStubRawXMLName(val *RawXMLValue) (xml.Name, bool) {
 	return xml.Name{}, false
 }
 
+// VerifRawDecodeBad: the payload of a raw value whose text is outside the
+// grammar of the typed value it is decoded into (e.g. an attribute that is
+// not a date): the real decoder fails on it, and so does the stub.
+var VerifRawDecodeBad interface{}
+
 func verifStubRawDecode(val *RawXMLValue, v interface{}) error {
 	if inner, ok := val.out.(*RawXMLValue); ok {
 		return verifStubRawDecode(inner, v)
+	}
+	if VerifRawDecodeBad != nil && val.out == VerifRawDecodeBad {
+		return fmt.Errorf("verif: text outside the grammar of the typed value")
 	}
 	if val.out != nil {
 		if dst, ok := v.(*ResourceType); ok {
